@@ -2,6 +2,7 @@
 (* C2S judge for C16: [id, fcmds, dcmds (command paths as word sequences), fdiff, ddiff (entries op,row,kids), ferr, derr (the front end raised),
    wlines, dlines (patch text printed by file_patch_worker for the two files / device-mode patch text, as word sequences; both <<>> when not driven),
    fview, dview (the diff as printed from the grouped diff each front end hands back),
+   plines (what the production worker of `annet patch` prints for the configurations the two files hold; compared with dlines),
    wview, dview2 (diff text printed by file_diff_worker for the two files / device-mode diff of what the files hold, printed the same way)] *)
 EXTENDS FrontEnds, TLC, Json, IOUtils
 Recs == ndJsonDeserialize(IOEnv.TRACE_FILE)
@@ -13,6 +14,7 @@ Verdict(r) ==
   ELSE IF r.fdiff # r.ddiff THEN <<"diff-differs", FirstDiff(r.fdiff, r.ddiff)>>
   ELSE IF r.fview # r.dview THEN <<"printed-file-diff-differs-from-device-mode", FirstDiff(r.fview, r.dview)>>
   ELSE IF ~WorkerAgrees(r.wlines, r.dlines) THEN <<"file-worker-output-differs-from-device-mode", FirstDiff(r.wlines, r.dlines)>>
+  ELSE IF ~WorkerAgrees(r.plines, r.dlines) THEN <<"annet-patch-worker-output-differs-from-device-mode", FirstDiff(r.plines, r.dlines)>>
   ELSE IF ~WorkerAgrees(r.wview, r.dview2) THEN <<"file-diff-worker-output-differs-from-device-mode", FirstDiff(r.wview, r.dview2)>>
   ELSE <<"ok", 0>>
 Init == i = 0
